@@ -25,3 +25,10 @@ def custom(run, tier):
     rc, summary, out = vlib.run_harness("c19e2e", ["-seed", run.seed, "-tier", tier], timeout=900)
     run.oblige("e2e timelines complete", rc == 0 and summary is not None, out[-2000:])
     run.absorb(summary)
+
+
+MANIFEST = {
+    "text": 'Coq theorems over all observation histories, thresholds >= 1 and suppression on/off (dead peer dropped at exactly the threshold-th timeout; every disconnect justified by threshold dead, quiet probes plus a dead final re-check; probe rule). The two reducers are regenerated from the Go source on every run and bridged to the model; the loop body is tied by running the real runLinktest against scripted histories and comparing per-iteration behaviour with the extracted model.',
+    "note": 'Trusted: Coq kernel, translator, extraction, harness/hook. Timer precision and suppression rule 1 (idle < interval) are runtime/e2e only.',
+    "technique": 'Rocq/Coq proof (induction over histories) + translator bridge + extracted-model differential',
+}
